@@ -203,6 +203,12 @@ def cases(ctx):
     yield "attribute-references", gen.free_model([OP("IMPLIES", T("A.x"), T("A.y")), OP("NOT", T("A.z")), OP("OR", T("B"), T("'lit'"))],
                                                  names=("A", "B"))
     yield "attribute-references", gen.free_model([OP("REQUIRES", T("A.x"), T("C.y")), OP("EXCLUDES", T("B.x"), T("B.y"))], names=("A",))
+    # features that occur in a constraint only as arguments of an aggregate function (typed features, attributes)
+    yield "aggregates", gen.free_model([OP("GREATER", OP("LEN", T("Owner")), (("i", 3), None, None)),
+                                        OP("LOWER", OP("SUM", T("price"), T("Catalog")), (("i", 10), None, None)),
+                                        OP("IMPLIES", T("Owner"), T("Shop")),
+                                        OP("EQUALS", OP("AVG", T("price"), T("Basket")), OP("FLOOR", T("Rate")))],
+                                       names=("Owner", "Catalog", "Shop", "Basket", "Rate"))
     # features whose names are digits only (ASCII, Arabic-Indic, a superscript): names, not numbers
     digit_names = ("2024", "\u0663\u0662", "\u00b2", "v1")
     yield "digit-names", gen.free_model([OP("IMPLIES", T("2024"), T("v1")), OP("EXCLUDES", T("\u0663\u0662"), T("2024")),
@@ -226,6 +232,7 @@ def run(ctx):
     g = ctx.gen
     shared = FMMetrics()
     direct = FMMetrics()
+    held = None
     all_methods = None
     for label, m in cases(ctx):
         # filter: none, or a random subset of the method names
@@ -242,6 +249,10 @@ def run(ctx):
                 shared.only_these_metrics(flt)
             entries = shared.execute(fm).get_result()
             irep = ("ok", canon_impl(entries))
+            # the report handed out for the previous model belongs to its caller
+            if held is not None and canon_impl(held[0]) != held[1]:
+                st.oracle_fail(label, req, "history:report-handed-out-earlier-was-changed", "")
+            held = (entries, canon_impl(entries))
         except RecursionError:
             raise
         except Exception as e:  # noqa: BLE001
